@@ -489,6 +489,14 @@ static int extra_cmd(const char *cmd, char *rest)
     if (!strcmp(cmd, "vecy")) { vec_set(&VY, rest); return 1; }
     if (!strcmp(cmd, "vecc")) { vec_set(&VC, rest); return 1; }
     if (!strcmp(cmd, "expect")) { cmd_expect(rest); return 1; }
+    /* the scale factor arrays that the documentation calls "not accessed" for the current equed are filled with values
+     * that are illegal as scale factors (a caller need not have initialised them) */
+    if (!strcmp(cmd, "poisonscale")) {
+        ctx_t *c = cx; if (!c->R) return 1;
+        if (c->equed[0] == 'N' || c->equed[0] == 'C') for (int i = 0; i < MAXN; i++) c->R[i] = (real_t)(i % 2 ? 0.0 : -3.0);
+        if (c->equed[0] == 'N' || c->equed[0] == 'R') for (int i = 0; i < MAXN; i++) c->C[i] = (real_t)(i % 2 ? -1.0 : 0.0);
+        return 1;
+    }
     if (!strcmp(cmd, "seteq")) { char q[4]; if (sscanf(rest, "%3s", q) == 1) cx->equed[0] = q[0]; return 1; }
     return 0;
 }
